@@ -290,6 +290,173 @@ def mon_c09(case, obs, prefix):
     return bad
 
 
+def _slot_json(s):
+    return json.dumps(norm(s, True), sort_keys=True)
+
+
+def mon_c05(case, obs, prefix):
+    bad = []
+    under = {}      # ghost: UP SEID -> node id the session is established under (as the property words it)
+    for i, ev, o, prev, prev_dp, dup in walk(case, obs, prefix):
+        if o.get("fault"):
+            bad.append((i, "fault: " + o["fault"]))
+            break
+        d, dp = o["dump"], o["dp"] or []
+        pslots, slots = prev.get("slots") or [], d["slots"] or []
+        addressed = None         # the SEIDs this event may touch
+        m = ev.get("msg") or {}
+        if ev["t"] == "recv" and not dup:
+            if m["k"] == "est":
+                new = [s["fseid"] for s in (o["sends"] or []) if s["type"] == "estrsp" and s["cause"] == 1]
+                addressed = set(new)
+                nid = (m.get("nid") or {}).get("v")
+                for f in new:
+                    under[f] = nid
+            elif m["k"] in ("mod", "del"):
+                addressed = {m["seid"]}
+                if m["k"] == "mod" and (m.get("nid") or {}).get("v") is not None and live(prev, m["seid"]) is not None:
+                    # takeover: the node object is re-keyed; all its sessions are from now on under the new id
+                    obj = live(prev, m["seid"])["node"]
+                    for idx, s in enumerate(pslots):
+                        if s is not None and s["node"] == obj:
+                            under[idx + 1] = m["nid"]["v"]
+            elif m["k"] == "asr":
+                nid = (m.get("nid") or {}).get("v")
+                if nid is not None and peer_ip(prefix, nid) in (prev.get("rnodes") or {}):
+                    addressed = {lid for lid, n in under.items() if n == nid and live(prev, lid) is not None}
+                    for lid in sorted(addressed):
+                        if live(d, lid) is not None and _slot_json(live(d, lid)) == _slot_json(live(prev, lid)):
+                            bad.append((i, "re-association of node %d left session %d, established under that node id, in place" % (nid, lid)))
+                else:
+                    addressed = set()
+            elif m["k"] == "srr":
+                if m["hdr"] == 0 and tx_entry(prev, key_of(prefix, ev["peer"], ev["seq"])) is not None:
+                    gone = [idx + 1 for idx, s in enumerate(pslots) if s is not None and live(d, idx + 1) is None]
+                    if len(gone) > 1:
+                        bad.append((i, "SEID-0 report response removed %d sessions" % len(gone)))
+                    for g in gone:
+                        node = [n for n in prev["nodes"] or [] if n["obj"] == pslots[g - 1]["node"]]
+                        if not node or node[0]["addr"] != "%s%d:8805" % (prefix, 10 + ev["peer"]):
+                            bad.append((i, "SEID-0 report response from peer %d removed session %d of another peer" % (ev["peer"], g)))
+                    addressed = set(gone)
+                else:
+                    addressed = set()
+            else:
+                addressed = set()
+        elif ev["t"] == "report":
+            addressed = {ev["seid"]}
+        else:
+            addressed = set()
+        for idx in range(max(len(pslots), len(slots))):
+            lid = idx + 1
+            if lid in addressed:
+                continue
+            a = pslots[idx] if idx < len(pslots) else None
+            b = slots[idx] if idx < len(slots) else None
+            if _slot_json(a) != _slot_json(b):
+                bad.append((i, "session %d changed although the event does not address it" % lid))
+        pr = sorted(tuple(r) for r in prev_dp if r[0] not in addressed)
+        nr = sorted(tuple(r) for r in dp if r[0] not in addressed)
+        if pr != nr:
+            bad.append((i, "data-plane rules of sessions not addressed by the event changed"))
+        for c in o["drv"] or []:
+            if c["seid"] not in addressed:
+                bad.append((i, "driver call tagged with SEID %d which the event does not address" % c["seid"]))
+        for lid in list(under):
+            if live(d, lid) is None:
+                del under[lid]
+    return bad
+
+
+def peer_ip(prefix, k):
+    return "%s%d" % (prefix, 10 + k)
+
+
+def sig_c05(case, failures):
+    """takeover-collision: the history contains a Modification carrying a Node ID that is, at that moment, the id
+    of another association (which the re-keying overwrites)"""
+    if not any("established under that node id" in m or "changed although" in m for _, m in failures):
+        return None
+    assoc = {}       # node id -> owner token, simulated from the events alone
+    sess_node = {}
+    nsess = 0
+    tok = 0
+    for ev in case["events"]:
+        if ev["t"] != "recv":
+            continue
+        m = ev["msg"]
+        if m["k"] == "asr" and (m.get("nid") or {}).get("v") is not None:
+            tok += 1
+            assoc[m["nid"]["v"]] = tok
+        if m["k"] == "est" and (m.get("nid") or {}).get("v") in assoc and (m.get("fseid") or {}).get("v") is not None:
+            nsess += 1
+            sess_node[nsess] = assoc[m["nid"]["v"]]
+        if m["k"] == "mod" and (m.get("nid") or {}).get("v") is not None:
+            new = m["nid"]["v"]
+            cur = sess_node.get(m["seid"])
+            if cur is not None and new in assoc and assoc[new] != cur:
+                return "takeover-collision"
+    return None
+
+
+def mon_c08(case, obs, prefix):
+    bad = []
+    rts = set()
+    upf = prefix + "1"
+    for i, ev, o, prev, prev_dp, dup in walk(case, obs, prefix):
+        if o.get("fault"):
+            bad.append((i, "fault: " + o["fault"]))
+            break
+        d = o["dump"]
+        sends = o["sends"] or []
+        for s in sends:
+            if s["type"] in ("hbrsp", "asrsp"):
+                rts.add(s["rts"])
+        if ev["t"] != "recv" or ev["msg"]["k"] in ("srr", "otherrsp"):
+            continue
+        m = ev["msg"]
+        for s in sends:
+            if s["type"] in ("hbrsp", "asrsp", "estrsp", "modrsp", "delrsp"):
+                if s["dst"] != ev["peer"]:
+                    bad.append((i, "response sent to peer %d, request came from peer %d" % (s["dst"], ev["peer"])))
+                if s["seq"] != ev["seq"]:
+                    bad.append((i, "response carries sequence %d, request had %d" % (s["seq"], ev["seq"])))
+        if dup:
+            continue
+        rsp = [s for s in sends if s["type"] in ("hbrsp", "asrsp", "estrsp", "modrsp", "delrsp")]
+        accepted = any(s["type"] in ("hbrsp",) or s["cause"] == 1 for s in rsp)
+        if m["k"] in ("mod", "del"):
+            tgt = live(prev, m["seid"])
+            for s in rsp:
+                if tgt is None and not (s["seid"] == 0 and s["cause"] == 65):
+                    bad.append((i, "response for a non-existent session must carry SEID 0 and cause 65"))
+                if tgt is not None and s["seid"] != tgt["rid"]:
+                    bad.append((i, "response header SEID %d is not the session's CP SEID %d" % (s["seid"], tgt["rid"])))
+        if m["k"] == "est":
+            for s in rsp:
+                if s["cause"] == 1:
+                    if s["nodeid"] != upf:
+                        bad.append((i, "Establishment Response carries node id %r" % s["nodeid"]))
+                    ns = live(d, s["fseid"])
+                    if ns is None or ns["rid"] != s["seid"] or live(prev, s["fseid"]) is not None:
+                        bad.append((i, "UP F-SEID %d does not address the new session" % s["fseid"]))
+                    want = [p["id"] if p["id"] is not None else 0 for p in (m.get("ops") or {}).get("cPDR", []) if p.get("ueip")]
+                    if (s["created"] or []) != want:
+                        bad.append((i, "Created PDR list %s, expected %s" % (s["created"], want)))
+        if m["k"] == "asr":
+            for s in rsp:
+                if s["nodeid"] != upf:
+                    bad.append((i, "Association Setup Response carries node id %r" % s["nodeid"]))
+        if not accepted and m["k"] in ("est", "mod", "del", "asr"):
+            if core(prev, prev_dp) != core(d, o["dp"] or []):
+                bad.append((i, "request answered with an error cause or not at all left a trace in session / data-plane state"))
+            if o["drv"]:
+                bad.append((i, "request answered with an error cause or not at all reached the data plane"))
+    if len(rts) > 1:
+        bad.append((len(obs) - 1, "recovery time stamps differ within one run: %s" % sorted(rts)))
+    return bad
+
+
 # ---------------------------------------------------------------- runner
 
 def shrink(ctx, harness, case, monitor, budget=40):
